@@ -187,6 +187,418 @@ def mjd_array_texpr(fn, env):
     raise P.Unrecognised('isinstance(mjd, int) branch not found')
 
 
+# ------------------------------------------------------------------------------------------------------------
+# Round 5: glue regenerated from the source -- defaults and broadcasting of sdss_objid, shape checks, line/index
+# exclusivity, the record dtypes and typed field expressions of the unwrap functions, the input/str conversion
+# types, the run2d tag pattern / checks / format string.
+
+DT = {'i1': 'I8', 'u1': 'U8', 'i2': 'I16', 'u2': 'U16', 'i4': 'I32', 'u4': 'U32', 'i8': 'I64', 'u8': 'U64'}
+
+
+def chars_lit(text):
+    return '[' + '; '.join('%d' % ord(ch) for ch in text) + ']'
+
+
+def const_or_defaultsky(node, dsky):
+    """Integer constant, or a call default_skyversion() (resolved to the constant that function returns)."""
+    if isinstance(node, ast.Call) and isinstance(node.func, ast.Name) and node.func.id == 'default_skyversion' \
+            and not node.args and not node.keywords:
+        return dsky
+    return P.const_value(node)
+
+
+def default_skyversion_value(tree):
+    fn = P.find_function(tree, 'default_skyversion')
+    body = [st for st in fn.body if not (isinstance(st, ast.Expr) and isinstance(st.value, ast.Constant))]
+    if len(body) == 1 and isinstance(body[0], ast.Return):
+        return P.const_value(body[0].value)
+    raise P.Unrecognised('default_skyversion is not a single return of a constant')
+
+
+def is_isinstance_int(test, name=None):
+    return (isinstance(test, ast.Call) and isinstance(test.func, ast.Name) and test.func.id == 'isinstance'
+            and len(test.args) == 2 and isinstance(test.args[0], ast.Name)
+            and (name is None or test.args[0].id == name)
+            and isinstance(test.args[1], ast.Name) and test.args[1].id == 'int')
+
+
+def is_int64_array_call(node, name):
+    return (isinstance(node, ast.Call) and isinstance(node.func, ast.Name) and node.func.id == '_int64_array'
+            and len(node.args) == 1 and isinstance(node.args[0], ast.Name) and node.args[0].id == name)
+
+
+def zeros_fill(node):
+    """np.zeros(run.shape, dtype=np.int64) [+ c]  ->  c   (the value every element gets)"""
+    def is_zeros(n):
+        return (isinstance(n, ast.Call) and isinstance(n.func, ast.Attribute) and n.func.attr == 'zeros'
+                and len(n.args) == 1 and isinstance(n.args[0], ast.Attribute) and n.args[0].attr == 'shape'
+                and isinstance(n.args[0].value, ast.Name) and n.args[0].value.id == 'run'
+                and len(n.keywords) == 1 and n.keywords[0].arg == 'dtype'
+                and isinstance(n.keywords[0].value, ast.Attribute) and n.keywords[0].value.attr == 'int64')
+    if is_zeros(node):
+        return ('const', 0)
+    if isinstance(node, ast.BinOp) and isinstance(node.op, ast.Add) and is_zeros(node.left):
+        return ('node', node.right)
+    raise P.Unrecognised('broadcast of a default is not np.zeros(run.shape, dtype=np.int64) + c')
+
+
+def objid_glue(fn, dsky):
+    """Signature defaults, None replacements, scalar promotion / broadcasting, shape checks of sdss_objid."""
+    args = [a.arg for a in fn.args.args]
+    if args != ['run', 'camcol', 'field', 'objnum', 'rerun', 'skyversion', 'firstfield']:
+        raise P.Unrecognised('sdss_objid signature %s' % args)
+    nd = len(fn.args.defaults)
+    sig = {}
+    for a, d in zip(args[-nd:], fn.args.defaults):
+        if isinstance(d, ast.Constant) and d.value is None:
+            sig[a] = None
+        else:
+            sig[a] = P.const_value(d)
+    if sorted(sig) != ['firstfield', 'rerun', 'skyversion']:
+        raise P.Unrecognised('sdss_objid optional arguments %s' % sorted(sig))
+    none_vals, promoted, bcast, shapes = {}, [], {}, []
+    for st in fn.body:
+        if not isinstance(st, ast.If):
+            continue
+        t = st.test
+        # if X is None: X = value
+        if isinstance(t, ast.Compare) and len(t.ops) == 1 and isinstance(t.ops[0], ast.Is) and isinstance(t.left, ast.Name) \
+                and isinstance(t.comparators[0], ast.Constant) and t.comparators[0].value is None:
+            nm = t.left.id
+            if not (len(st.body) == 1 and not st.orelse and isinstance(st.body[0], ast.Assign)
+                    and isinstance(st.body[0].targets[0], ast.Name) and st.body[0].targets[0].id == nm):
+                raise P.Unrecognised('None replacement of %s' % nm)
+            none_vals[nm] = const_or_defaultsky(st.body[0].value, dsky)
+        elif is_isinstance_int(t):
+            nm = t.args[0].id
+            if st.orelse:
+                raise P.Unrecognised('else branch on isinstance(%s, int)' % nm)
+            if len(st.body) == 1 and isinstance(st.body[0], ast.Assign) and is_int64_array_call(st.body[0].value, nm) \
+                    and isinstance(st.body[0].targets[0], ast.Name) and st.body[0].targets[0].id == nm:
+                promoted.append(nm)
+            elif len(st.body) == 1 and isinstance(st.body[0], ast.If):
+                inner = st.body[0]
+                c = inner.test
+                if not (isinstance(c, ast.Compare) and len(c.ops) == 1 and isinstance(c.ops[0], ast.Eq)
+                        and isinstance(c.left, ast.Name) and c.left.id == nm):
+                    raise P.Unrecognised('broadcast test of %s' % nm)
+                cmpv = const_or_defaultsky(c.comparators[0], dsky)
+                if not (len(inner.body) == 1 and isinstance(inner.body[0], ast.Assign) and len(inner.orelse) == 1
+                        and isinstance(inner.orelse[0], ast.Assign) and is_int64_array_call(inner.orelse[0].value, nm)
+                        and inner.body[0].targets[0].id == nm and inner.orelse[0].targets[0].id == nm):
+                    raise P.Unrecognised('broadcast branches of %s' % nm)
+                kind, v = zeros_fill(inner.body[0].value)
+                fill = v if kind == 'const' else const_or_defaultsky(v, dsky)
+                promoted.append(nm)
+                bcast[nm] = (cmpv, fill)
+            else:
+                raise P.Unrecognised('scalar promotion of %s' % nm)
+        elif isinstance(t, ast.Compare) and len(t.ops) == 1 and isinstance(t.ops[0], ast.NotEq) \
+                and isinstance(t.left, ast.Attribute) and t.left.attr == 'shape':
+            r = t.comparators[0]
+            if not (isinstance(t.left.value, ast.Name) and t.left.value.id == 'run' and isinstance(r, ast.Attribute)
+                    and r.attr == 'shape' and isinstance(r.value, ast.Name) and len(st.body) == 1
+                    and isinstance(st.body[0], ast.Raise) and isinstance(st.body[0].exc, ast.Call)
+                    and isinstance(st.body[0].exc.func, ast.Name) and st.body[0].exc.func.id == 'ValueError'):
+                raise P.Unrecognised('shape check idiom')
+            shapes.append(r.value.id)
+    return sig, none_vals, promoted, bcast, shapes
+
+
+def spec_glue(fn):
+    """line/index exclusivity (must be the first statement) and the shape checks of sdss_specobjid."""
+    body = [st for st in fn.body if not (isinstance(st, ast.Expr) and isinstance(st.value, ast.Constant))]
+    excl = False
+    st = body[0]
+    if isinstance(st, ast.If) and isinstance(st.test, ast.BoolOp) and isinstance(st.test.op, ast.And) and len(st.test.values) == 2:
+        names = []
+        for v in st.test.values:
+            if isinstance(v, ast.Compare) and len(v.ops) == 1 and isinstance(v.ops[0], ast.IsNot) and isinstance(v.left, ast.Name) \
+                    and isinstance(v.comparators[0], ast.Constant) and v.comparators[0].value is None:
+                names.append(v.left.id)
+        if sorted(names) == ['index', 'line'] and len(st.body) == 1 and isinstance(st.body[0], ast.Raise) \
+                and isinstance(st.body[0].exc, ast.Call) and getattr(st.body[0].exc.func, 'id', None) == 'ValueError':
+            excl = True
+    shapes = []
+    for st in body:
+        if isinstance(st, ast.If) and isinstance(st.test, ast.Compare) and len(st.test.ops) == 1 \
+                and isinstance(st.test.ops[0], ast.NotEq) and isinstance(st.test.left, ast.Attribute) and st.test.left.attr == 'shape':
+            t = st.test
+            r = t.comparators[0]
+            if not (isinstance(t.left.value, ast.Name) and t.left.value.id == 'plate' and isinstance(r, ast.Attribute)
+                    and r.attr == 'shape' and isinstance(r.value, ast.Name) and len(st.body) == 1
+                    and isinstance(st.body[0], ast.Raise) and isinstance(st.body[0].exc, ast.Call)
+                    and getattr(st.body[0].exc.func, 'id', None) == 'ValueError'):
+                raise P.Unrecognised('shape check idiom (specobjid)')
+            shapes.append(r.value.id)
+    return excl, shapes
+
+
+def regex_pieces(pat):
+    """Pattern made of literal characters and (\\d+) groups -> list of ('lit', text) / ('digits',)."""
+    out, i, lit = [], 0, ''
+    while i < len(pat):
+        if pat.startswith(r'(\d+)', i):
+            if lit:
+                out.append(('lit', lit))
+                lit = ''
+            out.append(('digits',))
+            i += 5
+        elif pat[i] in '.^$*+?{}[]\\|()':
+            raise P.Unrecognised('regex element %r' % pat[i:i + 4])
+        else:
+            lit += pat[i]
+            i += 1
+    if lit:
+        out.append(('lit', lit))
+    for a, b in zip(out, out[1:]):
+        if a[0] == 'digits' and (b[0] == 'digits' or b[1][0].isdigit()):
+            raise P.Unrecognised('a (\\d+) group followed by something that can start with a digit')
+    return out
+
+
+def run2d_string_branch(fn):
+    """The `except ValueError:` branch that decodes a 'vN_M_P' tag."""
+    for n in ast.walk(fn):
+        if not isinstance(n, ast.ExceptHandler):
+            continue
+        if not (isinstance(n.type, ast.Name) and n.type.id == 'ValueError'):
+            raise P.Unrecognised('run2d handler catches something else than ValueError')
+        res = {'checks': [], 'groups': None}
+        for st in n.body:
+            if isinstance(st, ast.Assign) and isinstance(st.targets[0], ast.Name) and st.targets[0].id == 'm':
+                c = st.value
+                if not (isinstance(c, ast.Call) and isinstance(c.func, ast.Attribute) and isinstance(c.func.value, ast.Name)
+                        and c.func.value.id == 're' and c.func.attr in ('match', 'fullmatch') and len(c.args) == 2
+                        and isinstance(c.args[0], ast.Constant) and isinstance(c.args[0].value, str)
+                        and isinstance(c.args[1], ast.Name) and c.args[1].id == 'run2d' and not c.keywords):
+                    raise P.Unrecognised('run2d regex call')
+                res['anchored'] = c.func.attr == 'fullmatch'
+                res['pieces'] = regex_pieces(c.args[0].value)
+            elif isinstance(st, ast.If) and isinstance(st.test, ast.Compare) and isinstance(st.test.left, ast.Name) \
+                    and st.test.left.id == 'm' and isinstance(st.test.ops[0], ast.Is):
+                if not (len(st.body) == 1 and isinstance(st.body[0], ast.Raise) and isinstance(st.body[0].exc, ast.Call)
+                        and getattr(st.body[0].exc.func, 'id', None) == 'ValueError'):
+                    raise P.Unrecognised('no-match branch of the run2d tag')
+                if not (len(st.orelse) == 1 and isinstance(st.orelse[0], ast.Assign)
+                        and isinstance(st.orelse[0].targets[0], ast.Tuple)):
+                    raise P.Unrecognised('group assignment of the run2d tag')
+                res['groups'] = [e.id for e in st.orelse[0].targets[0].elts]
+                v = st.orelse[0].value
+                ok = (isinstance(v, ast.Call) and isinstance(v.func, ast.Attribute) and v.func.attr == 'groups') or \
+                     (isinstance(v, ast.ListComp) and isinstance(v.elt, ast.Call) and getattr(v.elt.func, 'id', None) == 'int'
+                      and isinstance(v.generators[0].iter, ast.Call) and getattr(v.generators[0].iter.func, 'attr', None) == 'groups')
+                if not ok:
+                    raise P.Unrecognised('group assignment value of the run2d tag')
+            elif isinstance(st, ast.If) and isinstance(st.test, ast.UnaryOp) and isinstance(st.test.op, ast.Not) \
+                    and isinstance(st.test.operand, ast.BoolOp) and isinstance(st.test.operand.op, ast.And):
+                if not (len(st.body) == 1 and not st.orelse and isinstance(st.body[0], ast.Raise)
+                        and isinstance(st.body[0].exc, ast.Call) and getattr(st.body[0].exc.func, 'id', None) == 'ValueError'):
+                    raise P.Unrecognised('tag range check does not raise ValueError')
+                for cmpn in st.test.operand.values:
+                    if not (isinstance(cmpn, ast.Compare) and len(cmpn.ops) == 2 and all(isinstance(o, ast.LtE) for o in cmpn.ops)):
+                        raise P.Unrecognised('tag range check shape')
+                    mid = cmpn.comparators[0]
+                    if isinstance(mid, ast.Call) and getattr(mid.func, 'id', None) == 'int' and len(mid.args) == 1:
+                        mid = mid.args[0]
+                    if not isinstance(mid, ast.Name):
+                        raise P.Unrecognised('tag range check operand')
+                    res['checks'].append((mid.id, P.const_value(cmpn.left), P.const_value(cmpn.comparators[1])))
+            elif isinstance(st, ast.Assign) and isinstance(st.targets[0], ast.Name) and st.targets[0].id == 'run2d':
+                v = st.value
+                if not (isinstance(v, ast.Call) and isinstance(v.func, ast.Attribute) and v.func.attr == 'array' and len(v.args) == 1
+                        and isinstance(v.args[0], ast.List) and len(v.args[0].elts) == 1 and len(v.keywords) == 1
+                        and v.keywords[0].arg == 'dtype' and isinstance(v.keywords[0].value, ast.Attribute)
+                        and v.keywords[0].value.attr in ITY):
+                    raise P.Unrecognised('run2d tag array construction')
+                res['dtype'] = ITY[v.keywords[0].value.attr]
+            else:
+                raise P.Unrecognised('statement in the run2d tag branch: %s' % type(st).__name__)
+        if res['groups'] is None or 'pieces' not in res or 'dtype' not in res:
+            raise P.Unrecognised('run2d tag branch incomplete')
+        if len([p for p in res['pieces'] if p[0] == 'digits']) != len(res['groups']):
+            raise P.Unrecognised('run2d tag: groups and names differ in number')
+        if res['groups'] != ['N', 'M', 'P']:
+            raise P.Unrecognised('run2d tag group names %s' % res['groups'])
+        res['checks'] = [(res['groups'].index(nm), lo, hi) for nm, lo, hi in res['checks']]
+        return res
+    raise P.Unrecognised('run2d tag branch not found')
+
+
+def to_uexpr(node, var, subst=None):
+    """Typed form (Lib/NumpyInt.uexpr) of an expression of ONE array variable."""
+    subst = subst or {}
+    node = strip_tolist(node)
+    if isinstance(node, ast.Name):
+        if node.id == var:
+            return 'UVar'
+        if node.id in subst:
+            return subst[node.id]
+        raise P.Unrecognised('free name %s' % node.id)
+    if isinstance(node, ast.BinOp):
+        ops = {ast.RShift: 'UShr', ast.BitAnd: 'UAndLit', ast.Add: 'UAddLit', ast.FloorDiv: 'UDivLit', ast.Mod: 'UModLit'}
+        k = ops.get(type(node.op))
+        if k is None:
+            raise P.Unrecognised('unwrap operator %s' % type(node.op).__name__)
+        return '(%s %s %s)' % (k, to_uexpr(node.left, var, subst), P.zlit(P.const_value(node.right)))
+    if isinstance(node, ast.Call) and isinstance(node.func, ast.Attribute) and node.func.attr == 'bitwise_and' and len(node.args) == 2:
+        return '(UAndLit %s %s)' % (to_uexpr(node.args[0], var, subst), P.zlit(P.const_value(node.args[1])))
+    raise P.Unrecognised('unwrap node %s' % type(node).__name__)
+
+
+def unwrap_typed(fn, argname):
+    """Input-type dispatch, record dtype and typed field expressions of an unwrap function."""
+    info = {'strings': {}, 'fields': [], 'locals': {}, 'nmp': {}}
+    # --- input dispatch
+    disp = None
+    for st in fn.body:
+        if isinstance(st, ast.If) and any(isinstance(x, ast.Attribute) and x.attr == 'dtype' for x in ast.walk(st.test)):
+            disp = st
+            break
+    if disp is None:
+        raise P.Unrecognised('dtype dispatch not found')
+
+    def single_assign(stmts):
+        if len(stmts) == 1 and isinstance(stmts[0], ast.Assign) and isinstance(stmts[0].targets[0], ast.Name) \
+                and stmts[0].targets[0].id == 'tempobjid':
+            return stmts[0].value
+        raise P.Unrecognised('dispatch branch is not a single assignment to tempobjid')
+    v = single_assign(disp.body)
+    if not (isinstance(v, ast.Call) and isinstance(v.func, ast.Attribute) and v.func.attr == 'astype'
+            and isinstance(v.func.value, ast.Name) and v.func.value.id == argname and len(v.args) == 1
+            and isinstance(v.args[0], ast.Attribute) and v.args[0].attr in ITY and not v.keywords):
+        raise P.Unrecognised('string branch is not %s.astype(np.<inttype>)' % argname)
+    info['strtype'] = ITY[v.args[0].attr]
+    tests = [x.attr for x in ast.walk(disp.test) if isinstance(x, ast.Attribute) and x.attr in ('np_string', 'np_unicode')] + \
+            [x.id for x in ast.walk(disp.test) if isinstance(x, ast.Name) and x.id in ('np_string', 'np_unicode')]
+    if sorted(tests) != ['np_string', 'np_unicode'] or not isinstance(disp.test, ast.BoolOp) or not isinstance(disp.test.op, ast.Or):
+        raise P.Unrecognised('string test does not cover both bytes and str arrays')
+    if not (len(disp.orelse) == 1 and isinstance(disp.orelse[0], ast.If)):
+        raise P.Unrecognised('integer branch of the dispatch')
+    el = disp.orelse[0]
+    t = el.test
+    if not (isinstance(t, ast.Compare) and len(t.ops) == 1 and isinstance(t.ops[0], ast.Is)
+            and isinstance(t.comparators[0], ast.Attribute) and t.comparators[0].attr in ITY):
+        raise P.Unrecognised('integer type test')
+    info['intype'] = ITY[t.comparators[0].attr]
+    v = single_assign(el.body)
+    if not (isinstance(v, ast.Call) and isinstance(v.func, ast.Attribute) and v.func.attr == 'copy'
+            and isinstance(v.func.value, ast.Name) and v.func.value.id == argname and not v.args):
+        raise P.Unrecognised('integer branch is not %s.copy()' % argname)
+    if not (len(el.orelse) == 1 and isinstance(el.orelse[0], ast.Raise) and isinstance(el.orelse[0].exc, ast.Call)
+            and getattr(el.orelse[0].exc.func, 'id', None) == 'ValueError'):
+        raise P.Unrecognised('other input types do not raise ValueError')
+    # --- local string switches (run2d_dtype = 'U8'; if run2d_integer: run2d_dtype = 'i4')
+    switches = {}
+    for st in fn.body:
+        if isinstance(st, ast.Assign) and isinstance(st.targets[0], ast.Name) and isinstance(st.value, ast.Constant) \
+                and isinstance(st.value.value, str):
+            switches[st.targets[0].id] = {'default': st.value.value}
+        elif isinstance(st, ast.If) and isinstance(st.test, ast.Name) and len(st.body) == 1 and isinstance(st.body[0], ast.Assign) \
+                and isinstance(st.body[0].targets[0], ast.Name) and st.body[0].targets[0].id in switches \
+                and isinstance(st.body[0].value, ast.Constant) and not st.orelse:
+            switches[st.body[0].targets[0].id][st.test.id] = st.body[0].value.value
+    info['switches'] = switches
+    # --- record dtype
+    rec = None
+    for st in fn.body:
+        if isinstance(st, ast.Assign) and isinstance(st.targets[0], ast.Name) and st.targets[0].id == 'unwrap' \
+                and isinstance(st.value, ast.Call) and getattr(st.value.func, 'attr', None) == 'recarray':
+            rec = st.value
+    if rec is None:
+        raise P.Unrecognised('np.recarray call not found')
+    sh = rec.args[0]
+    if not (isinstance(sh, ast.Attribute) and sh.attr == 'shape' and isinstance(sh.value, ast.Name) and sh.value.id == argname):
+        raise P.Unrecognised('record array does not have the shape of the input')
+    dt = [k.value for k in rec.keywords if k.arg == 'dtype']
+    if len(dt) != 1 or not isinstance(dt[0], ast.List):
+        raise P.Unrecognised('record dtype')
+    descr = []
+    for e in dt[0].elts:
+        if not (isinstance(e, ast.Tuple) and len(e.elts) == 2):
+            raise P.Unrecognised('record dtype entry')
+        parts = []
+        for x in e.elts:
+            if isinstance(x, ast.Constant) and isinstance(x.value, str):
+                parts.append(('const', x.value))
+            elif isinstance(x, ast.Name) and x.id in switches:
+                parts.append(('switch', x.id))
+            else:
+                raise P.Unrecognised('record dtype entry element')
+        descr.append(tuple(parts))
+    info['descr'] = descr
+    # --- field expressions
+    exprs = {}
+    local = {}
+    for st in fn.body:
+        if isinstance(st, ast.Assign) and len(st.targets) == 1:
+            t = st.targets[0]
+            if isinstance(t, ast.Attribute) and isinstance(t.value, ast.Name) and t.value.id == 'unwrap':
+                exprs[('const', t.attr)] = to_uexpr(fold(st.value), 'tempobjid', local)
+            elif isinstance(t, ast.Subscript) and isinstance(t.value, ast.Name) and t.value.id == 'unwrap' \
+                    and isinstance(t.slice, ast.Name) and t.slice.id in switches:
+                exprs[('switch', t.slice.id)] = to_uexpr(fold(st.value), 'tempobjid', local)
+            elif isinstance(t, ast.Name) and t.id == 'run2d':
+                local['run2d'] = to_uexpr(fold(st.value), 'tempobjid', local)
+        elif isinstance(st, ast.If) and isinstance(st.test, ast.Name) and st.test.id == 'run2d_integer' and st.orelse:
+            # if run2d_integer: unwrap.run2d = run2d  else: N, M, P = ..., unwrap.run2d = [fmt.format(...) ...]
+            b = st.body
+            if not (len(b) == 1 and isinstance(b[0], ast.Assign) and isinstance(b[0].targets[0], ast.Attribute)
+                    and b[0].targets[0].attr == 'run2d' and isinstance(b[0].value, ast.Name) and b[0].value.id == 'run2d'):
+                raise P.Unrecognised('integer run2d assignment')
+            exprs[('const', 'run2d')] = local['run2d']
+            for s_ in st.orelse:
+                if isinstance(s_, ast.Assign) and isinstance(s_.targets[0], ast.Name) and s_.targets[0].id in ('N', 'M', 'P'):
+                    info['nmp'][s_.targets[0].id] = to_uexpr(fold(s_.value), 'tempobjid', local)
+                elif isinstance(s_, ast.Assign) and isinstance(s_.targets[0], ast.Attribute) and s_.targets[0].attr == 'run2d':
+                    lc = s_.value
+                    if not (isinstance(lc, ast.ListComp) and isinstance(lc.elt, ast.Call) and isinstance(lc.elt.func, ast.Attribute)
+                            and lc.elt.func.attr == 'format' and isinstance(lc.elt.func.value, ast.Constant)
+                            and [getattr(a, 'id', None) for a in lc.elt.args] == ['n', 'm', 'p']):
+                        raise P.Unrecognised('run2d tag formatting')
+                    g = lc.generators[0]
+                    if not (isinstance(g.target, ast.Tuple) and [e.id for e in g.target.elts] == ['n', 'm', 'p']
+                            and isinstance(g.iter, ast.Call) and getattr(g.iter.func, 'id', None) == 'zip'
+                            and [getattr(a, 'id', None) for a in g.iter.args] == ['N', 'M', 'P']):
+                        raise P.Unrecognised('run2d tag formatting loop')
+                    info['format'] = format_pieces(lc.elt.func.value.value)
+                else:
+                    raise P.Unrecognised('statement in the string run2d branch')
+    info['exprs'] = exprs
+    return info
+
+
+def format_pieces(fmt):
+    """'v{0:d}_{1:d}_{2:d}' -> [('lit','v'), ('arg',0), ...]"""
+    import re as _re
+    out, pos = [], 0
+    for m in _re.finditer(r'\{(\d+):d\}', fmt):
+        if m.start() > pos:
+            out.append(('lit', fmt[pos:m.start()]))
+        out.append(('arg', int(m.group(1))))
+        pos = m.end()
+    if pos < len(fmt):
+        out.append(('lit', fmt[pos:]))
+    if any('{' in p[1] or '}' in p[1] for p in out if p[0] == 'lit'):
+        raise P.Unrecognised('format string %r' % fmt)
+    return out
+
+
+def record_lit(descr, exprs, choose):
+    """Coq list of (name chars, storage type, typed expression incl. the cast of the field assignment)."""
+    rows, names = [], []
+    for nm, ty in descr:
+        name = nm[1] if nm[0] == 'const' else choose[nm[1]]
+        tyv = ty[1] if ty[0] == 'const' else choose[ty[1]]
+        if tyv not in DT:
+            raise P.Unrecognised('record field type %r' % tyv)
+        if nm not in exprs:
+            raise P.Unrecognised('record field %s is never assigned' % name)
+        rows.append('(%s, %s, (UCast %s %s)) (* %s *)' % (chars_lit(name), DT[tyv], DT[tyv], exprs[nm], name))
+        names.append((name, tyv))
+    return rows, names
+
+
 def defn(name, args, body):
     return 'Definition %s (%s : Z) : Z :=\n  %s.\n' % (name, ' '.join(args), body)
 
@@ -200,7 +612,7 @@ def generate(repo):
     sdss_src = open(os.path.join(repo, 'pydl/pydlutils/sdss.py')).read()
     photo_src = open(os.path.join(repo, 'pydl/photoop/photoobj.py')).read()
     out = ['(* GENERATED by translate/c06.py from pydl/pydlutils/sdss.py and pydl/photoop/photoobj.py -- do not edit *)',
-           'From Coq Require Import ZArith List.', 'From PV Require Import Lib.NumpyInt.', 'Import ListNotations.', 'Open Scope Z_scope.', '']
+           'From Coq Require Import ZArith List.', 'From PV Require Import Lib.NumpyInt C06.Strings.', 'Import ListNotations.', 'Open Scope Z_scope.', '']
     try:
         t1 = ast.parse(sdss_src)
         t2 = ast.parse(photo_src)
@@ -249,6 +661,63 @@ def generate(repo):
             if k not in us:
                 raise P.Unrecognised('unwrap_specobjid %s' % k)
             out.append(defn(k, ['r'], us[k]))
+        # ---- round 5: glue ----
+        dsky = default_skyversion_value(t1)
+        sig, none_vals, promoted, bcast, shapes = objid_glue(f_obj, dsky)
+        ix = {x: i for i, x in enumerate(OBJID_ARGS)}
+        out.append('(* ---- glue regenerated from the source (round 5) ---- *)')
+        out.append('Definition default_skyversion_value : Z := %s.' % P.zlit(dsky))
+        out.append('Definition objid_sig_defaults : list (nat * option Z) := [%s].' % '; '.join(
+            '(%d%%nat, %s)' % (ix[k], 'None' if sig[k] is None else 'Some %s' % P.zlit(sig[k])) for k in ('rerun', 'skyversion', 'firstfield')))
+        out.append('Definition objid_none_values : list (nat * Z) := [%s].' % '; '.join(
+            '(%d%%nat, %s)' % (ix[k], P.zlit(v)) for k, v in none_vals.items()))
+        out.append('Definition objid_scalar_promoted : list nat := [%s].' % '; '.join('%d%%nat' % ix[k] for k in promoted))
+        out.append('Definition objid_broadcast : list (nat * (Z * Z)) := [%s].' % '; '.join(
+            '(%d%%nat, (%s, %s))' % (ix[k], P.zlit(c), P.zlit(f)) for k, (c, f) in bcast.items()))
+        out.append('Definition objid_shape_checked : list nat := [%s].' % '; '.join('%d%%nat' % ix[k] for k in shapes))
+        excl, sshapes = spec_glue(f_spec)
+        out.append('Definition specobjid_line_index_exclusive : bool := %s.' % ('true' if excl else 'false'))
+        out.append('Definition specobjid_shape_checked : list nat := [%s].\n' % '; '.join('%d%%nat' % senv[k] for k in sshapes))
+        info['objid_glue'] = {'signature_defaults': sig, 'none_values': none_vals, 'broadcast': bcast, 'shape_checked': shapes}
+
+        tag = run2d_string_branch(f_spec)
+
+        def pieces_lit(ps, lit, other):
+            return '[' + '; '.join('%s %s' % (lit, chars_lit(p[1])) if p[0] == 'lit' else other(p) for p in ps) + ']'
+        out.append('Definition run2d_pattern : list ppiece := %s.' % pieces_lit(tag['pieces'], 'PLit', lambda p: 'PDigits'))
+        out.append('Definition run2d_pattern_anchored : bool := %s.' % ('true' if tag['anchored'] else 'false'))
+        out.append('Definition run2d_tag_checks : list (nat * Z * Z) := [%s].' % '; '.join(
+            '(%d%%nat, %s, %s)' % (i, P.zlit(lo), P.zlit(hi)) for i, lo, hi in tag['checks']))
+        out.append('Definition run2d_tag_dtype : ity := %s.\n' % tag['dtype'])
+        info['run2d_tag'] = {'anchored': tag['anchored'], 'checks': tag['checks'], 'dtype': tag['dtype']}
+
+        uo = unwrap_typed(f_uobj, 'objid')
+        rows, names = record_lit(uo['descr'], uo['exprs'], {})
+        out.append('Definition unwrap_objid_intype : ity := %s.' % uo['intype'])
+        out.append('Definition unwrap_objid_strtype : ity := %s.' % uo['strtype'])
+        out.append('Definition unwrap_objid_record : list (list Z * ity * uexpr) :=\n  [%s\n  ].\n' % ';\n   '.join(rows).replace(' (* ', '\n   (* ').replace(');\n   \n', ');\n'))
+        info['unwrap_objid_dtype'] = names
+        usp = unwrap_typed(f_uspec, 'specObjID')
+        sw = usp['switches']
+        if sorted(sw) != ['line', 'run2d_dtype'] or 'run2d_integer' not in sw['run2d_dtype'] or 'specLineIndex' not in sw['line']:
+            raise P.Unrecognised('unwrap_specobjid switches %s' % sw)
+        if 'format' not in usp or sorted(usp['nmp']) != ['M', 'N', 'P']:
+            raise P.Unrecognised('unwrap_specobjid string run2d branch')
+        rows, names = record_lit(usp['descr'], usp['exprs'], {'run2d_dtype': sw['run2d_dtype']['run2d_integer'], 'line': sw['line']['default']})
+        out.append('Definition unwrap_spec_intype : ity := %s.' % usp['intype'])
+        out.append('Definition unwrap_spec_strtype : ity := %s.' % usp['strtype'])
+        out.append('(* the record of unwrap_specobjid(..., run2d_integer=True) *)')
+        out.append('Definition unwrap_spec_record : list (list Z * ity * uexpr) :=\n  [%s\n  ].\n' % ';\n   '.join(rows).replace(' (* ', '\n   (* ').replace(');\n   \n', ');\n'))
+        info['unwrap_spec_dtype_integer'] = names
+        sdt = sw['run2d_dtype']['default']
+        if not (sdt.startswith('U') and sdt[1:].isdigit()):
+            raise P.Unrecognised('string run2d dtype %r' % sdt)
+        out.append('Definition unwrap_spec_line_names : list Z * list Z := (%s, %s).' % (chars_lit(sw['line']['default']), chars_lit(sw['line']['specLineIndex'])))
+        out.append('Definition unwrap_spec_run2d_str_width : Z := %s.' % sdt[1:])
+        out.append('Definition unwrap_spec_NMP : list uexpr := [%s].' % '; '.join(usp['nmp'][k] for k in ('N', 'M', 'P')))
+        out.append('Definition run2d_format : list fpiece := %s.\n' % pieces_lit(usp['format'], 'FLit', lambda p: 'FArg %d%%nat' % p[1]))
+        info['unwrap_spec_dtype_string'] = [(n, (sdt if n == 'run2d' else t)) for n, t in names]
+        info['unwrap_spec_line_names'] = [sw['line']['default'], sw['line']['specLineIndex']]
         out.append('Definition sdssids_recognised : bool := true.')
     except (P.Unrecognised, SyntaxError) as e:
         info['recognised'] = False
